@@ -11,7 +11,10 @@ checks, na = [], []
 for p in props:
     pid = p["id"]
     if pid in M.CLAIMED:
-        c = M.CLAIMED[pid]
+        c = dict(M.CLAIMED[pid])
+        if pid in getattr(M, "WORLD", {}):
+            c["technique"] = c["technique"] + M.WORLD_TECH
+            c["text"] = c["text"] + M.WORLD_TEXT_COMMON + M.WORLD[pid]
         checks.append({
             "property_id": pid,
             "quick_cmd": "./check %s quick" % pid,
